@@ -89,6 +89,29 @@ CLAIMED["C03"] = (
     "library's prose and act as pins).",
     "DESIGN.md §5 C03")
 
+CLAIMED["C07"] = (
+    "model_checking",
+    "PlusCal transcription of Commissioning composed with a TLA+ bus of IEC 62386-102 gear (Gear102), exhaustive "
+    "over draw streams/configurations with clauses P1..P6 as invariants; real generator traces (TLC counterexample, "
+    "tlc -simulate behaviours, seeded scenarios up to 70 gear) re-executed and judged by TLC (CommJudge)",
+    "TLC explores every stream of random draws for 2 (quick) / 3 (thorough) gear over boundary random addresses with "
+    "clash rounds, finds the withdrawn-collision counterexample, and every real trace is re-executed frame by frame "
+    "on the unit model before P1..P6 are evaluated; simulated behaviours must reproduce exactly on the real code.",
+    "Trusted: TLC; my reading of IEC 62386-102 11.7 (RANDOMISE / PROGRAM SHORT ADDRESS act on units that are not "
+    "DISABLED); bus rule 0/1/>=2 answers -> none/value/framing error. The Python unit simulator is re-executed by TLC.",
+    "DESIGN.md §5 C07")
+CLAIMED["C08"] = (
+    "model_checking",
+    "PlusCal transcription of QueryDeviceTypes/QueryGroups/SetGroups against Gear102 and against every adversarial "
+    "answer stream up to length L (SeqQueries); real generator traces for conforming units and adversarial streams "
+    "judged by TLC (CommJudge + QueryClauses)",
+    "Exhaustive on the model for small universes; on the real code all subsets of a 9-type universe plus random "
+    "lists, structured (quick) / all 2^16 (thorough) group sets, SetGroups pairs x destination kinds, every stream of "
+    "length <= 4 (quick) / 6 (thorough) over the alphabet, and the longest ascending stream.",
+    "Trusted: TLC; the unit model's QUERY NEXT DEVICE TYPE iteration. Value 255 inside an iteration and an empty "
+    "iteration are treated as unspecified.",
+    "DESIGN.md §5 C08")
+
 NOT_YET = {}
 
 
